@@ -77,6 +77,15 @@ func filterKind(a an.PathAtom) string {
 		if e.Idx == 1 && e.Args[0].Op == an.OpElem && e.Args[0].CommaOk {
 			return "Seen"
 		}
+	case an.OpElem:
+		// seen[k] on a map[K]bool used as a set (only `true` is ever stored: see seenKey's callers)
+		if !e.CommaOk && len(e.Args) == 2 && e.Args[0].Typ != nil {
+			if m, ok := e.Args[0].Typ.Underlying().(*types.Map); ok {
+				if b, ok := m.Elem().Underlying().(*types.Basic); ok && b.Kind() == types.Bool {
+					return "Seen"
+				}
+			}
+		}
 	case an.OpBin:
 		x, y := e.Args[0], e.Args[1]
 		isBits := func(z *an.Expr) bool {
@@ -102,6 +111,91 @@ func filterKind(a an.PathAtom) string {
 		}
 	}
 	return "other:" + e.String()
+}
+
+// marksMember reports whether a map update records membership: any value for a
+// set of empty structs, the constant true for a map[K]bool (a stored false
+// would make the `set[k]` test miss the element).
+func marksMember(mu *ssa.MapUpdate) bool {
+	if b, ok := mu.Value.Type().Underlying().(*types.Basic); ok && b.Kind() == types.Bool {
+		k, isC := mu.Value.(*ssa.Const)
+		return isC && k.Value != nil && k.Value.Kind() == constant.Bool && constant.BoolVal(k.Value)
+	}
+	return true
+}
+
+// rdnssEveryServerChecked: every iteration of parseRDNSS's server loop that
+// goes on to the next element (the server, or the wildcard, was accepted) has
+// established that the parsed address is IPv6, not IPv4-mapped and carries no
+// zone. (An accepting iteration that skips these tests lets 0.0.0.0 through as
+// the wildcard: netip.Addr.IsUnspecified is true for it.)
+func rdnssEveryServerChecked(c *Ctx, rule string) {
+	pr := c.P.Func("internal/config", "parseRDNSS")
+	if pr == nil {
+		return
+	}
+	n, bad := 0, ""
+	for _, p := range c.pathsO(rule, pr, an.PathOpts{EmitCut: true}) {
+		if !p.Cut {
+			continue
+		}
+		parsed := false
+		is6, not4in6, noZone := false, false, false
+		for _, a := range p.Atoms {
+			e := a.Cond
+			if e.Op == an.OpCall && e.Fn != nil {
+				switch e.Fn.String() {
+				case "(net/netip.Addr).Is6":
+					is6 = is6 || a.Pos
+				case "(net/netip.Addr).Is4In6":
+					not4in6 = not4in6 || !a.Pos
+				}
+			}
+			x, y, op, ok := effCmp(a)
+			if ok && x.Op == an.OpCall && x.Fn != nil && x.Fn.String() == "(net/netip.Addr).Zone" && y.IsConst(`""`) && op == token.EQL {
+				noZone = true
+			}
+			if ok && exprIsNil(y) && op == token.EQL {
+				if b, idx := stripExtract(x); idx == 1 && b != nil && b.Op == an.OpCall && b.Fn != nil && b.Fn.String() == "net/netip.ParseAddr" {
+					parsed = true
+				}
+			}
+		}
+		if !parsed {
+			continue // not an iteration of the server loop
+		}
+		n++
+		if !(is6 && not4in6 && noZone) {
+			bad = fmt.Sprintf("an accepting iteration established Is6=%v, !Is4In6=%v, no zone=%v (%s)", is6, not4in6, noZone, atomsString(p))
+		}
+	}
+	c.R.Check(n >= 2 && bad == "", rule, c.fname(pr)+":every-accepted-server-is-plain-ipv6", c.fname(pr), c.pos(pr.Pos()), fmt.Sprintf("%d accepting iteration path(s); %s", n, bad),
+		"every server string that is accepted (as a server or as the :: wildcard) parsed to an IPv6, non-mapped, zone-less address", "0.0.0.0 is accepted as the wildcard, or an IPv4/zoned server is advertised")
+}
+
+func instrPosOfAtom(a an.PathAtom) token.Pos {
+	if a.If != nil {
+		return instrPos(a.If)
+	}
+	return token.NoPos
+}
+
+// seenKey returns the key of a membership test classified "Seen": the
+// `_, ok := set[k]` form, the `set[k]` form of a map[K]bool, and
+// slices.Contains(acc, k).
+func seenKey(a an.PathAtom) *an.Expr {
+	e := a.Cond
+	switch e.Op {
+	case an.OpExtract:
+		if len(e.Args) == 1 && len(e.Args[0].Args) == 2 {
+			return e.Args[0].Args[1]
+		}
+	case an.OpElem, an.OpCall:
+		if len(e.Args) == 2 {
+			return e.Args[1]
+		}
+	}
+	return nil
 }
 
 // kindPol is filterKind with the polarity of the named condition ("+" holds, "-" does not).
@@ -436,12 +530,12 @@ func runC13(c *Ctx) {
 						})
 						continue
 					}
-					key := a.Cond.Args[0].Args[1]
-					okKey = sameValue(key, v) || key.String() == v.String()
+					key := seenKey(a)
+					okKey = key != nil && (sameValue(key, v) || key.String() == v.String())
 				}
 			}
 			it.p.Instrs(func(in ssa.Instruction) {
-				if mu, ok := in.(*ssa.MapUpdate); ok {
+				if mu, ok := in.(*ssa.MapUpdate); ok && marksMember(mu) {
 					k := it.p.Of(mu.Key)
 					if k.String() == v.String() {
 						okIns = true
@@ -1002,13 +1096,23 @@ func c14Compose(c *Ctx) {
 	pname := c.fname(pr)
 	ps := c.pathsO("R-C14-4", pr, an.PathOpts{EmitCut: true})
 	okWild, okDup, okWild2 := false, false, false
+	wild4 := ""
 	for _, p := range ps {
 		unspec := false
+		is6 := false
 		var seenAtom, autoAtom *an.PathAtom
 		for i := range p.Atoms {
 			a := p.Atoms[i]
+			if a.Cond.Op == an.OpCall && a.Cond.Fn != nil && a.Cond.Fn.String() == "(net/netip.Addr).Is6" && a.Pos {
+				is6 = true
+			}
 			if a.Cond.Op == an.OpCall && a.Cond.Fn != nil && a.Cond.Fn.String() == "(net/netip.Addr).IsUnspecified" {
 				unspec = a.Pos
+				// netip.Addr.IsUnspecified is also true for 0.0.0.0: the wildcard is recognised only among
+				// addresses already established to be IPv6
+				if a.Pos && !is6 {
+					wild4 = "IsUnspecified() decides the wildcard at " + c.pos(instrPosOfAtom(a)) + " before the address is known to be IPv6"
+				}
 			}
 			if filterKind(a) == "Seen" {
 				seenAtom = &p.Atoms[i]
@@ -1033,6 +1137,8 @@ func c14Compose(c *Ctx) {
 			okDup = true
 		}
 	}
+	rdnssEveryServerChecked(c, "R-C14-4")
+	c.R.Check(wild4 == "", "R-C14-4", pname+":wildcard-is-ipv6", pname, c.pos(pr.Pos()), wild4, "the :: wildcard is recognised only after Is6() held for the parsed address", "0.0.0.0 is accepted as the RDNSS wildcard")
 	c.R.Check(okWild, "R-C14-4", pname+":wildcard-not-stored", pname, c.pos(pr.Pos()), fmt.Sprintf(":: sets auto and is not inserted: %v", okWild), ":: only sets Auto", ":: advertised as a literal DNS server")
 	c.R.Check(okWild2, "R-C14-4", pname+":wildcard-once", pname, c.pos(pr.Pos()), fmt.Sprintf("second :: rejected: %v", okWild2), "at most one ::", "repeated :: accepted")
 	c.R.Check(okDup, "R-C14-4", pname+":duplicates-rejected", pname, c.pos(pr.Pos()), fmt.Sprintf("duplicate server rejected: %v", okDup), "servers are unique", "duplicate servers accepted")
@@ -1284,12 +1390,12 @@ func runC15(c *Ctx) {
 			}
 			okIns, okKey := false, false
 			it.p.Instrs(func(in ssa.Instruction) {
-				if mu, ok := in.(*ssa.MapUpdate); ok && len(it.appends) == 1 && it.p.Of(mu.Key).String() == it.appends[0].String() {
+				if mu, ok := in.(*ssa.MapUpdate); ok && marksMember(mu) && len(it.appends) == 1 && it.p.Of(mu.Key).String() == it.appends[0].String() {
 					okIns = true
 				}
 			})
 			for _, a := range it.p.Atoms {
-				if filterKind(a) == "Seen" && len(it.appends) == 1 && a.Cond.Args[0].Args[1].String() == it.appends[0].String() {
+				if k := seenKey(a); filterKind(a) == "Seen" && len(it.appends) == 1 && k != nil && k.String() == it.appends[0].String() {
 					okKey = true
 				}
 			}
